@@ -743,7 +743,11 @@ func Edit(r *gen.Rng, s *Schema) (*Schema, string) {
 				i := r.Intn(len(a.Map.Fields))
 				f := &a.Map.Fields[i]
 				if f.Default != nil {
-					f.Default = "UDP"
+					if f.Default == "UDP" {
+						f.Default = "ICMP"
+					} else {
+						f.Default = "UDP"
+					}
 					return c, "default value"
 				}
 				if fa := c.Resolve(f.Type); fa != nil && fa.Scalar == "string" {
